@@ -95,6 +95,14 @@ type shiftWS struct {
 	MidKs    []int             `json:"mid_ks"`    // k blank lines inserted before each of the file's cuts
 	MidCross bool              `json:"mid_cross"` // every k at every cut (else the k values rotate over the cuts)
 	TailKs   []int             `json:"tail_ks"`   // k blank lines appended at the end of the file
+	// Program: the edits of the session, in order (a replay of an issue that needs the history of the session carries the
+	// edits up to and including the failing one); empty: generated from the fields above, file by file
+	Program []shiftStep `json:"program"`
+}
+
+type shiftStep struct {
+	File string        `json:"file"`
+	Edit shiftEditSpec `json:"edit"`
 }
 
 // shiftEditSpec: one layout-only edit of a file: k blank lines at the top, before line Row ("mid"), or at the end ("tail")
@@ -166,6 +174,9 @@ type shiftIssue struct {
 	After    []shiftDiag       `json:"after"`
 	Minimal  bool              `json:"minimised"`
 	Attempts int               `json:"attempts"`
+	// History: the issue does not show on a fresh cache with this one edit alone: the edits of the session up to and
+	// including the failing one
+	History []shiftStep `json:"history,omitempty"`
 }
 
 type shiftResult struct {
@@ -390,6 +401,17 @@ func shiftCompare(s *shiftSession, files map[string]string, base map[string][]sh
 	return res
 }
 
+// shiftCheckOneSame: does the issue show on a fresh cache with its one edit alone?
+func shiftCheckOneSame(ctx context.Context, is shiftIssue, files map[string]string, cfg string) []shiftIssue {
+	var res []shiftIssue
+	for _, j := range shiftCheckOne(ctx, files, cfg, is.File, is.Edit) {
+		if shiftSameIssue(is, []shiftIssue{j}) {
+			res = append(res, j)
+		}
+	}
+	return res
+}
+
 func shiftSameIssue(a shiftIssue, bs []shiftIssue) bool {
 	for _, b := range bs {
 		if a.Kind == b.Kind && a.File == b.File && a.Other == b.Other && a.Diag != nil && b.Diag != nil && a.Diag.Code == b.Diag.Code && a.Edit.Kind == b.Edit.Kind {
@@ -401,7 +423,7 @@ func shiftSameIssue(a shiftIssue, bs []shiftIssue) bool {
 
 // shiftMinimise shrinks the workspace while the same kind of issue (kind, rule, edited file) persists for this k:
 // other files dropped, then line chunks of every file
-func shiftMinimise(ctx context.Context, is shiftIssue, files map[string]string, cfg string, budget int) shiftIssue {
+func shiftMinimise(ctx context.Context, is shiftIssue, files map[string]string, cfg string, budget int) (shiftIssue, bool) {
 	cur := map[string]string{}
 	for n, t := range files {
 		cur[n] = t
@@ -416,9 +438,9 @@ func shiftMinimise(ctx context.Context, is shiftIssue, files map[string]string, 
 		return shiftSameIssue(is, shiftCheckOne(ctx, fs, cfg, is.File, edit))
 	}
 	if !holds(cur) {
-		// needs the history of earlier edits of the session: reported as found
+		// needs the history of earlier edits of the session: reported as found (the caller attaches the history)
 		is.Files, is.Config, is.Attempts = files, cfg, attempts
-		return is
+		return is, false
 	}
 	var names []string
 	for n := range cur {
@@ -480,11 +502,11 @@ func shiftMinimise(ctx context.Context, is shiftIssue, files map[string]string, 
 	for _, j := range shiftCheckOne(ctx, cur, cfg, is.File, edit) {
 		if shiftSameIssue(is, []shiftIssue{j}) {
 			j.Files, j.Config, j.Minimal, j.Attempts = cur, cfg, true, attempts
-			return j
+			return j, true
 		}
 	}
 	is.Files, is.Config, is.Attempts = files, cfg, attempts
-	return is
+	return is, true
 }
 
 func shiftRunWS(ctx context.Context, ws shiftWS) shiftResult {
@@ -515,65 +537,83 @@ func shiftRunWS(ctx context.Context, ws shiftWS) shiftResult {
 		}
 	}
 	res.Baseline[""] = shiftSnapshot(s.c, shiftRoot)
-	edit := ws.Edit
-	if len(edit) == 0 {
-		for n := range ws.Files {
-			edit = append(edit, n)
+	program := ws.Program
+	if len(program) == 0 {
+		edit := ws.Edit
+		if len(edit) == 0 {
+			for n := range ws.Files {
+				edit = append(edit, n)
+			}
+			sort.Strings(edit)
 		}
-		sort.Strings(edit)
+		for _, name := range edit {
+			// one session: the edits follow each other on the same cache (each one replaces the ORIGINAL text by a variant that
+			// differs in layout only); the last one of a file restores its original text
+			for _, k := range ws.Ks {
+				program = append(program, shiftStep{name, shiftEditSpec{Kind: "top", K: k}})
+			}
+			for ci, row := range ws.Cuts[name] {
+				for ki, k := range ws.MidKs {
+					// quick: the k values rotate over the cuts; MidCross: every k at every cut
+					if ws.MidCross || ki == ci%len(ws.MidKs) {
+						program = append(program, shiftStep{name, shiftEditSpec{Kind: "mid", Row: row, K: k}})
+					}
+				}
+			}
+			for _, k := range ws.TailKs {
+				program = append(program, shiftStep{name, shiftEditSpec{Kind: "tail", K: k}})
+			}
+			program = append(program, shiftStep{name, shiftEditSpec{Kind: "top", K: 0}})
+		}
 	}
 	seen := map[string]bool{}
-	minimised := 0
-	for _, name := range edit {
-		// one session: the edits follow each other on the same cache (each one replaces the ORIGINAL text by a variant that
-		// differs in layout only); the last one restores the original text
-		var specs []shiftEditSpec
-		for _, k := range ws.Ks {
-			specs = append(specs, shiftEditSpec{Kind: "top", K: k})
+	minimised, tried := 0, 0
+	for pi, st := range program {
+		name, e := st.File, st.Edit
+		if _, ok := ws.Files[name]; !ok {
+			continue
 		}
-		for ci, row := range ws.Cuts[name] {
-			for ki, k := range ws.MidKs {
-				// quick: the k values rotate over the cuts; MidCross: every k at every cut
-				if ws.MidCross || ki == ci%len(ws.MidKs) {
-					specs = append(specs, shiftEditSpec{Kind: "mid", Row: row, K: k})
-				}
+		skip, err := s.shiftEdit(ctx, name, e.apply(ws.Files[name]))
+		if err != nil {
+			fail(name, e.K, err)
+			return res
+		}
+		if skip != "" {
+			continue
+		}
+		res.Edits++
+		res.EditsByKind[e.Kind]++
+		res.Compared += len(res.Baseline[name])
+		for _, is := range shiftCompare(s, ws.Files, res.Baseline, name, e) {
+			code := ""
+			if is.Diag != nil {
+				code = is.Diag.Code
 			}
-		}
-		for _, k := range ws.TailKs {
-			specs = append(specs, shiftEditSpec{Kind: "tail", K: k})
-		}
-		specs = append(specs, shiftEditSpec{Kind: "top", K: 0})
-		for _, e := range specs {
-			k := e.K
-			skip, err := s.shiftEdit(ctx, name, e.apply(ws.Files[name]))
-			if err != nil {
-				fail(name, k, err)
-				return res
-			}
-			if skip != "" {
+			sig := is.Kind + "|" + code + "|" + e.Kind
+			if seen[sig] {
 				continue
 			}
-			res.Edits++
-			res.EditsByKind[e.Kind]++
-			res.Compared += len(res.Baseline[name])
-			for _, is := range shiftCompare(s, ws.Files, res.Baseline, name, e) {
-				code := ""
-				if is.Diag != nil {
-					code = is.Diag.Code
-				}
-				sig := is.Kind + "|" + code + "|" + e.Kind
-				if seen[sig] {
-					continue
-				}
-				seen[sig] = true
-				if minimised < 2 && is.Kind != "error" {
+			seen[sig] = true
+			fresh := false
+			switch {
+			case is.Kind == "error":
+			case minimised < 2 && tried < 8:
+				tried++
+				if is, fresh = shiftMinimise(ctx, is, ws.Files, ws.Config, 40); fresh {
 					minimised++
-					is = shiftMinimise(ctx, is, ws.Files, ws.Config, 40)
-				} else {
-					is.Files, is.Config = ws.Files, ws.Config
 				}
-				res.Issues = append(res.Issues, is)
+			case tried < 10:
+				tried++
+				is.Files, is.Config = ws.Files, ws.Config
+				fresh = len(shiftCheckOneSame(ctx, is, ws.Files, ws.Config)) > 0
+			default:
+				is.Files, is.Config = ws.Files, ws.Config
 			}
+			if !fresh {
+				is.Files, is.Config = ws.Files, ws.Config
+				is.History = append([]shiftStep{}, program[:pi+1]...)
+			}
+			res.Issues = append(res.Issues, is)
 		}
 	}
 	return res
